@@ -52,6 +52,7 @@ pub fn hkdf_extract<D: Digest>(mut digest: D, salt: &[u8], ikm: &[u8], prk: &mut
 /// * okm - The output buffer to fill with the derived key value.
 pub fn hkdf_expand<D: Digest>(mut digest: D, prk: &[u8], info: &[u8], okm: &mut [u8]) {
     digest.reset();
+    assert!(prk.len() >= digest.output_bytes());
 
     let mut mac = Hmac::new(digest, prk);
     let os = mac.output_bytes();
